@@ -8,6 +8,7 @@
 #include "nmtools/array/view/ufuncs/add.hpp"
 #include "nmtools/array/view/ufuncs/multiply.hpp"
 #include "nmtools/array/view/where.hpp"
+#include "nmtools/array/view/concatenate.hpp"
 #include "nmtools/array/eval.hpp"
 #include "nmtools/utility/cast.hpp"
 #include "show.hpp"
@@ -113,8 +114,44 @@ template <typename K1, typename K2> static std::string run_outer(K1 k1, K2 k2, i
     } else return "skip";
     }
 }
+// concatenate over kind pairs: the static shape / size of the joined view is derived from BOTH operands' knowledge
+// (index::shape_concatenate's type rule); ops 12/13: the second operand is NOT filled to its capacity (resized to (1,2))
+template <typename K1, typename K2> static std::string run_concat(K1 k1, K2 k2, int op) {
+    int ra[1][3] = {{1, 2, 3}}; int rb[2][3] = {{4, 5, 6}, {7, 8, 9}}; int rs[2][2] = {{1, 2}, {3, 4}};
+    auto a = nm::cast(rb, k1); auto d = nm::cast(ra, k2);
+    if constexpr (meta::is_fail_v<decltype(a)> || meta::is_fail_v<decltype(d)>) return "unsupported"; else {
+    switch (op) {
+        case 10: return report(a, view::concatenate(a, d, 0));
+        case 11: return report(d, view::concatenate(d, a, 0));
+        default: break;
+    }
+    auto c = nm::cast(rs, k1); auto e = nm::cast(ra, k2);
+    if constexpr (can_resize2<decltype(e)>::value) {
+        std::array<size_t,2> shp{1, 2}; bool ok = true;
+        if constexpr (std::is_void_v<decltype(e.resize(shp))>) e.resize(shp); else ok = e.resize(shp);
+        { const auto got = nm::shape(e); if (!ok || (size_t)nm::len(got) != 2 || (size_t)nm::at(got,0) != 1 || (size_t)nm::at(got,1) != 2) return "skip"; }
+        nm::apply_at(e, std::array<size_t,2>{0,0}) = 5; nm::apply_at(e, std::array<size_t,2>{0,1}) = 7;
+        switch (op) {
+            case 12: return report(c, view::concatenate(c, e, 0));
+            case 13: return report(e, view::concatenate(e, c, 0));
+            default: return "unsupported";
+        }
+    } else return "skip";
+    }
+}
 // second operand kinds: a representative of every shape-knowledge family
 template <bool OUTER_OK, typename K1> static std::string run_bin2(K1 k1, const std::string& k2, int op) {
+    if (op >= 10) {
+        if (k2 == "same") return run_concat(k1, k1, op);
+        if (k2 == "fixed") return run_concat(k1, kind::fixed, op);
+        if (k2 == "ndarray_fs_db") return run_concat(k1, kind::ndarray_fs_db, op);
+        if (k2 == "ndarray_hs_hb") return run_concat(k1, kind::ndarray_hs_hb, op);
+        if (k2 == "ndarray_ds_db") return run_concat(k1, kind::ndarray_ds_db, op);
+        if (k2 == "ndarray_ls_fb") return run_concat(k1, kind::ndarray_ls_fb, op);
+        if (k2 == "ndarray_cs_fb") return run_concat(k1, kind::ndarray_cs_fb, op);
+        if (k2 == "ndarray_ls_db") return run_concat(k1, kind::ndarray_ls_db, op);
+        return "unsupported";
+    }
     if (op >= 6) {
         // fixed-dim std::array-shape (7..9) and clipped-shape (16..18) first operands: the outer view's evaluation is rejected by a
         // static_assert of the library ("unsupported isequal, mismatched size for packed type") — an unsupported combination
